@@ -12,7 +12,7 @@ import numpy as np
 from .. import common as C
 
 PROP = "C01"
-GEN_REGIONS = ["CoreKernels", "CudaKernels", "NumpyKernels", "BuildQ", "Analysis"]
+GEN_REGIONS = ["CoreKernels", "CudaKernels", "NumpyKernels", "BuildQ", "Analysis", "GlobalState"]
 THEOREMS = {
     "SpecKitV.Lemmas.Goertzel": ["goertzelS_dft", "forRange_goertzel", "segDFT_toC", "goertzel_pair_outputs", "goertzel_pair_segDFT"],
     "SpecKitV.Props.C01": [
@@ -40,6 +40,9 @@ THEOREMS = {
     "SpecKitV.Props.BuildQGen": ["BuildQ.gen_build_Q_none", "BuildQ.gen_build_Q_isPolyBasis", "BuildQ.libQ_eq_some", "BuildQ.libQ_isPolyBasis", "BuildQ.libQ_m", "BuildQ.libQ_ortho", "BuildQ.stats_poly_csd_libQ_eq_ref", "BuildQ.stats_poly_auto_libQ_eq_ref", "BuildQ.stats_poly_csd_cuda_libQ_eq_ref", "BuildQ.stats_poly_auto_cuda_libQ_eq_ref", "BuildQ.np_poly_csd_libQ_eq_ref", "BuildQ.np_poly_auto_libQ_eq_ref", "BuildQ.stats_poly_csd_libQ_short", "BuildQ.stats_poly_auto_libQ_short", "BuildQ.stats_poly_csd_cuda_libQ_short", "BuildQ.stats_poly_auto_cuda_libQ_short", "BuildQ.np_poly_csd_libQ_short", "BuildQ.np_poly_auto_libQ_short", "BuildQ.stats_poly_csd_libQ_L1", "BuildQ.stats_poly_auto_libQ_L1"],
     # the digital frequency handed to every kernel by the single-bin entry point is 2*pi*f/fs for the frequency the result reports (translated each run)
     "SpecKitV.Props.AnalysisGen": ["gen_single_bin_omega_eq"],
+    # no state outlives a call in the files this property is anchored in (no module/class-level containers, memoisers, mutable defaults) and the
+    # decorators are exactly the audited ones (region GlobalState, re-scanned from the current source each run)
+    "SpecKitV.Props.GlobalStateGen": ["GlobalStateGen.gen_globalState_core", "GlobalStateGen.gen_globalState_core_cuda"],
 }
 CONTRACTS = ["np.linalg.qr (through _build_Q) returns a basis Q; the kernels are proved equal to the estimator that subtracts Q Qᵀ seg for ANY Q",
              # contracts of the NumPy routines the translated _build_Q refers to (definitions in lean/SpecKitV/Np/BuildQ.lean; differential run in C08)
